@@ -1,4 +1,6 @@
 """C14 - the block store answers by-number, by-id and stream queries per branch correctly.  DESIGN section 5 (C14)."""
+import os
+
 import chainindexcommon as cc
 from verifkit import Infra
 
@@ -32,15 +34,25 @@ def run(ctx):
         if r.invariant != inv:
             raise Infra("the bounded model does not reach the shape %s: %s" % (inv, r.invariant or r.error or "no violation"))
 
+    # With hooks/subscriptions.patch in the tree the subscription readers are also driven Read by Read (AddBlocks between
+    # the individual reads of block / beat / beat2 readers that share the handler's caches)
+    hooked = os.path.exists(os.path.join(ctx.repo, "api/subscriptions/verif_hooks.go"))
+    tags = "verif,verifsubs" if hooked else "verif"
+    step = ["-substep"] if hooked else []
+    ctx.cov["subscription_readers_stepped"] = hooked
+
     # 2. binding demonstration on a recorded tree run
-    runs, stats, how = cc.record(ctx, "chainindex", ["-mode", "tree", "-blocks", "12"], "demo", 1, seed_offset=977)
+    runs, stats, how = cc.record(ctx, "chainindex", ["-mode", "tree", "-blocks", "12"] + step, "demo", 1, seed_offset=977, tags=tags)
     if cc.validate_runs(ctx, runs, stats, "demo", how) != [0]:
+        cc.stalled(ctx)
         return
+    cc.invariant_demo(ctx, runs[0], "c14")
     cc.binding_demo(ctx, runs[0], "c14", [
         ("bynum-swapped", cc.mut_bynum), ("exclude-fork-block-dropped", cc.mut_exclude),
         ("obsolete-flag-cleared", cc.mut_obsolete), ("subscription-obsolete-flag-cleared", cc.mut_sub_obsolete),
         ("lookup-from-wrong-branch", cc.mut_lookup_branch),
-        ("add-deleted", cc.mut_delete("Add")), ("read-deleted", cc.mut_delete("Read"))])
+        ("add-deleted", cc.mut_delete("Add")), ("read-deleted", cc.mut_delete("Read")),
+        ("reopen-deleted-best-moved", cc.mut_reopen)])
 
     # 3. implementation -> model: random trees on a real Repository, every query from every head after every AddBlock,
     #    readers from every position (above best, on abandoned siblings); real websocket subscriptions of every kind
@@ -48,14 +60,15 @@ def run(ctx):
     #    message caches; long reorganisations (>= 80 blocks deep) with readers following them
     all_stats = []
     n_tree = 24 if q else 400
-    runs, stats, how = cc.record(ctx, "chainindex", ["-mode", "tree,treeclean", "-blocks", "12" if q else "15"], "trees", n_tree)
+    runs, stats, how = cc.record(ctx, "chainindex", ["-mode", "tree,treeclean", "-blocks", "12" if q else "15"] + step, "trees", n_tree,
+                                 tags=tags)
     acc = cc.validate_runs(ctx, runs, stats, "trees", how, batch=40)
     all_stats += [stats[i] for i in acc]
     for k in acc[:2]:
         ctx.sample({"mode": runs[k][0]["mode"], "seed": runs[k][0]["seed"],
                     "events": [e for e in runs[k] if e["e"] in ("Add", "Read", "Excl")][:6]}, limit=4)
     n_long = 2 if q else 16
-    runs, stats, how = cc.record(ctx, "chainindex", ["-mode", "long"], "long", n_long, seed_offset=5)
+    runs, stats, how = cc.record(ctx, "chainindex", ["-mode", "long"], "long", n_long, seed_offset=5, tags=tags)
     acc = cc.validate_runs(ctx, runs, stats, "long", how, batch=4)
     all_stats += [stats[i] for i in acc]
     for k in acc[:1]:
@@ -64,16 +77,21 @@ def run(ctx):
 
     # 3b. what Repository.AddBlock permits beyond the node's fork choice: a child of best that is not best, readers on
     #     descendants of best (the design streams the obsolete blocks and stops at best)
-    runs, stats, how = cc.record(ctx, "chainindex", ["-mode", "treefree", "-blocks", "10"], "free", 4 if q else 40, seed_offset=11)
+    runs, stats, how = cc.record(ctx, "chainindex", ["-mode", "treefree", "-blocks", "10"], "free", 4 if q else 40, seed_offset=11,
+                                 tags=tags)
     acc = cc.validate_runs(ctx, runs, stats, "free", how, batch=4 if q else 8)
     all_stats += [stats[i] for i in acc]
     ctx.cov["reads_from_descendant_of_best"] = sum(s["readsFromDescendantOfBest"] for s in stats)
 
     shapes = {k: sum(s.get(k, 0) for s in all_stats) for k in
               ("readsFromAboveBest", "readsFromSiblingOneBelow", "addsOnSideBranchTip", "subscriptions",
-               "subscriptionMessages", "subscriptionObsolete")}
+               "subscriptionMessages", "subscriptionObsolete", "reopens")}
+    if hooked:
+        for k in ("steppedSubscriptionReaders", "steppedSubscriptionReads"):
+            shapes[k] = sum(s.get(k, 0) for s in all_stats)
     ctx.cov.update(shapes)
-    if not ctx.violations and not ctx.known_hit:
+    cc.stalled(ctx)
+    if not ctx.violations:
         for k, v in shapes.items():
             if v == 0:
                 raise Infra("the recorded runs never produced the shape %s" % k)
@@ -95,6 +113,11 @@ def run(ctx):
         "subscriptions run dry after every AddBlock that moves best (the server side reads at a moment the client cannot "
         "see); mid-walk interleavings of reads with AddBlocks are exercised on chain.BlockReader directly",
         "conflicts passed to AddBlock is Repository.ScanConflicts(height) at that moment, as the node's import path does",
+        "the store is closed and re-opened in every run (fresh MuxDB and Repository over the same in-memory key-value engine, "
+        "odd seeds with a real trie node cache): the number index, heads, best and the tx index are read back from the engine; "
+        "a leveldb on disk is not involved",
+        "a subscription that delivers nothing for 20 s is probed without a clock (a chain.BlockReader at the same position, "
+        "logged and judged); if the probe is fine the run is set aside and the check ends with exit 2, never a violation",
         "api/subscriptions is exercised through its real HTTP/websocket handlers (httptest server, gorilla client); the "
         "pending-tx stream is out of scope",
         "exhaustive only inside the bounds of MC_ChainIndex_*.cfg (quick: 7 blocks, thorough: 9 blocks; <= 3 per height, 2 readers); larger trees are sampled",
